@@ -173,3 +173,16 @@ func init() {
 		Runs: []Run{{Pkg: hp + "c10", Variant: "scryptrec"}},
 	}
 }
+
+func init() {
+	specs["C11"] = &Spec{
+		Title: "Recipients with different label sets cannot share a file",
+		Level: "exploration",
+		LevelText: "Every list of 1..4/5 recipients over 16 label declarations (method absent, nil, empty, {a}, {b}, {a,b} and {a,b,c} in several orders, case/whitespace variants, recipients failing to wrap with and without labels) is passed to the real Encrypt with a counting destination: it must succeed exactly when all declared sets are equal as sets (absent = nil = empty) and nobody fails, not a single Write may reach the destination on refusal, and every accepted file must decrypt for every recipient. The real plugin recipient's labels path is covered by C16.",
+		LevelNote: "label lists with repeated labels denote no set and are outside the alphabet (DESIGN.md §5)",
+		Technique: "bounded-exhaustive configuration enumeration on the implementation with a set-equality reference oracle",
+		Rule: "enumerate lists of label declarations; oracle: success iff set-equal and no failure; zero bytes / zero Write calls on refusal; decryptability on success. distinct_nontrivial counts distinct lists.",
+		Assumptions: commonAssume,
+		Runs: []Run{{Pkg: hp + "c11", Variant: "real"}},
+	}
+}
